@@ -89,6 +89,11 @@ def body(ck, F, cfg):
     for name, okk in VS["guards_found"].items():
         ck.require(okk, "R03.4", f"rounds-match-size:{name}", f"relation (c) folds exactly log2(n) rounds: the verifier must reject any other number of (L,R) pairs (guard `{name}` missing)", "src/inner_product_proof.rs")
     C02.verdict_rule(ck, F, "R03.5")
+    # batch verification is verification too: its combined check must be the same relations, instance by instance
+    # (C07's rules by reference)
+    from . import C07
+
+    C07.body(ck, F, cfg)
     ck.floor("layout segments", len([o for o in ck.obligations if o[0] == "R03.1" and o[1].startswith("base:")]), 22)
 
 
